@@ -98,17 +98,17 @@ func (k *Kind) Variant(name string) *Kind {
 // Options steer what the generator may produce beyond the strict normal form of C01.
 type Options struct {
 	MaxDepth      int
-	NastyNames    bool    // quotes, backslashes, control and non-ASCII characters, regex syntax in member names
-	Extensions    bool    // x- members wherever the kind allows them
-	ExtraProps    bool    // unknown keywords inside schemas
-	GoKeys        bool    // members the Go model adds (nullable, id, example …)
-	Refs          bool    // $ref members / ref variants
-	NonIntNumbers bool    // numbers with fractions/exponents (outside the Lean model's domain)
-	EmptySecurity bool    // `security: []` on operations (C14)
-	PayloadNulls  bool    // nulls / empty containers nested in free-form payloads
-	XOrder        bool    // x-order extension on property schemas
-	MemberP       float64 // probability of each optional member in random subsets
-	Valid         bool    // aim at documents that validate against the Swagger 2.0 meta-schema (C19)
+	NastyNames    bool                // quotes, backslashes, control and non-ASCII characters, regex syntax in member names
+	Extensions    bool                // x- members wherever the kind allows them
+	ExtraProps    bool                // unknown keywords inside schemas
+	GoKeys        bool                // members the Go model adds (nullable, id, example …)
+	Refs          bool                // $ref members / ref variants
+	NonIntNumbers bool                // numbers with fractions/exponents (outside the Lean model's domain)
+	EmptySecurity bool                // `security: []` on operations (C14)
+	PayloadNulls  bool                // nulls / empty containers nested in free-form payloads
+	XOrder        bool                // x-order extension on property schemas
+	MemberP       float64             // probability of each optional member in random subsets
+	Valid         bool                // aim at documents that validate against the Swagger 2.0 meta-schema (C19)
 	LocalRefs     map[string][]string // when set: per kind, the pool `ref` values are drawn from
 }
 
